@@ -30,7 +30,7 @@ UNIT = dict(
             ("sub", "R6-store", r"\.get\(&(\w+)\)", r".get(&\1, clk, Tracked(tr))", 1),
             ("sub", "R6-store", r"\.insert\((\w+), (\w+)\.clone\(\)\)", r".insert(\1, \2.clone(), clk, Tracked(tr))", 1),
             ("addarg", ["call"], TR, 1),
-            ("R10e", 1),
+            ("R10e", -1),
         ]),
     },
     types=[
